@@ -6,6 +6,11 @@ type WaitGroup struct {
 	n       int
 	waiters []*Thread
 	toks    []*tok
+	// returning: threads released from Wait by the counter reaching zero that have not run since. sync.WaitGroup's
+	// contract: a positive Add at counter zero must happen after all previous Wait calls have returned; the real
+	// implementation may panic ("WaitGroup is reused before previous Wait has returned" / "Add called concurrently
+	// with Wait") when it does not, so the model reports that history as a panic of the adder
+	returning []*Thread
 }
 
 func (wg *WaitGroup) Add(n int) {
@@ -26,6 +31,12 @@ func (wg *WaitGroup) Wait() {
 	}
 	t.op = op{kind: opWgWait, wg: wg}
 	s.visible(t)
+	for i, w := range wg.returning {
+		if w == t {
+			wg.returning = append(wg.returning[:i], wg.returning[i+1:]...)
+			break
+		}
+	}
 }
 
 // Mutex models sync.Mutex and sync.RWMutex.
